@@ -71,7 +71,7 @@ func der(r, s *big.Int, padR, padS bool) []byte {
 }
 
 // sigClass names how a signature slot deviates from a correct signature.
-var sigClasses = []string{"correct", "correct", "correct", "correct", "correct", "correct", "wrongmsg", "wrongkey", "empty", "highS", "padR", "padS", "truncated", "badtype", "forkmismatch", "onlytype", "garbage"}
+var sigClasses = []string{"correct", "correct", "correct", "correct", "correct", "correct", "wrongmsg", "wrongkey", "empty", "highS", "padR", "padS", "truncated", "badtype", "forkmismatch", "onlytype", "garbage", "dermut", "dermut", "negR", "negS", "zeroS"}
 
 type recChecker struct {
 	codes map[byte][]byte // placeholder id -> script code handed to CheckSig
@@ -389,6 +389,29 @@ func SigScripts(t *rapid.T) SigProgram {
 		case "truncated":
 			body = der(r, sv, false, false)
 			body = body[:len(body)-1]
+		case "dermut": // one byte of a valid encoding replaced (headers, lengths, markers, value bytes)
+			body = der(r, sv, false, false)
+			body[rapid.IntRange(0, len(body)-1).Draw(t, "dermut_i")] = byte(rapid.IntRange(0, 255).Draw(t, "dermut_b"))
+		case "negR", "negS": // the zero byte that keeps a high-bit value positive is left out
+			rb, sb := new(big.Int).Set(r), new(big.Int).Set(sv)
+			if s.class == "negR" {
+				rb.SetBit(rb, 255, 1)
+			} else {
+				sb.SetBit(sb, 255, 1)
+			}
+			rB, sB := rb.Bytes(), sb.Bytes()
+			if s.class != "negR" && rB[0]&0x80 != 0 {
+				rB = append([]byte{0}, rB...)
+			}
+			if s.class != "negS" && sB[0]&0x80 != 0 {
+				sB = append([]byte{0}, sB...)
+			}
+			inner := append(append([]byte{0x02, byte(len(rB))}, rB...), append([]byte{0x02, byte(len(sB))}, sB...)...)
+			body = append([]byte{0x30, byte(len(inner))}, inner...)
+		case "zeroS":
+			rB := derInt(r, false)
+			inner := append(rB, 0x02, 0x00)
+			body = append([]byte{0x30, byte(len(inner))}, inner...)
 		default:
 			body = der(r, sv, false, false)
 		}
